@@ -495,23 +495,26 @@ def fkJson (p : ℕ × FK PZ GQ) : Json :=
   | .ps φ => Json.mkObj (base ++ [("k", Json.str "ps"), ("phi", ratToJson φ.1)])
   | .leaf _ => Json.mkObj (base ++ [("k", Json.str "leaf")])
 
-def msJson (m : ℕ) (st : MS PZ GQ) : Json :=
-  Json.mkObj [("state", Json.arr (st.map fkJson).toArray),
-    ("U", matJson ((Cmp.circ m (itsOfList (st.cmps Prod.snd))).UV GQ.I))]
+def msJson (m : ℕ) (st : MS PZ GQ) (withU : Bool) : Json :=
+  Json.mkObj ([("state", Json.arr (st.map fkJson).toArray)] ++
+    (if withU then [("U", matJson ((Cmp.circ m (itsOfList (st.cmps Prod.snd))).UV GQ.I))] else []))
 
 /-- `{"op": "mchain", "m": m, "state": [...], "steps": [...]}`: the flattened view and the matrix after every step of
-the mixed history (entry 0: the initial state) -/
+the mixed history (entry 0: the initial state); the matrix for the last entry only -/
 def doMChain (j : Json) : Except String Json := do
   let m ← natOf j "m"
   if m = 0 then throw "AssertionError"
   let st0 ← (← arrOf j "state").toList.mapM fkOf
   if st0.any (fun p => p.1 + p.2.size > m ∨ p.2.size = 0) then throw "AssertionError"
   let mut st := st0
-  let mut out : Array Json := #[msJson m st]
-  for sj in (← arrOf j "steps") do
+  let stepsJ ← arrOf j "steps"
+  let mut out : Array Json := #[msJson m st (stepsJ.size == 0)]
+  let mut i := 0
+  for sj in stepsJ do
     let s ← mstepOf (st.length) sj
     st := mstepRun m s st
-    out := out.push (msJson m st)
+    i := i + 1
+    out := out.push (msJson m st (i == stepsJ.size))
   return Json.mkObj [("trace", Json.arr out)]
 
 def handle (j : Json) : Json :=
